@@ -352,12 +352,23 @@ func (a *Act) doPhis(b *ssa.BasicBlock, st *State, ins []edgeIn, havoc bool) {
 
 func (a *Act) loopInvs(h *ssa.BasicBlock) []*Clause {
 	var out []*Clause
-	if a.con == nil || a.inlined {
+	n := a.loopOrd[h]
+	if a.inlined {
+		// invariants the verified function's contract supplies for loops of this inlined callee ("loop callee.N invariant")
+		if a.top != nil && a.top.con != nil {
+			for _, c := range a.top.con.Invs {
+				if c.LoopFn != "" && c.LoopFn == a.fn.Name() && c.Loop == n {
+					out = append(out, c)
+				}
+			}
+		}
+		return out
+	}
+	if a.con == nil {
 		return nil
 	}
-	n := a.loopOrd[h]
 	for _, c := range a.con.Invs {
-		if c.Loop == n {
+		if c.Loop == n && c.LoopFn == "" {
 			out = append(out, c)
 		}
 	}
@@ -473,16 +484,24 @@ func (a *Act) assertHints(h *ssa.BasicBlock, st *State) {
 
 func (a *Act) assertInvs(h *ssa.BasicBlock, st *State, kind string) {
 	for _, ai := range a.autoInvs(h, st) {
-		name := fmt.Sprintf("%s/%s loop#%d.auto-%s", a.prefix, kind, a.loopOrd[h], ai[0])
+		lp0 := fmt.Sprintf("loop#%d", a.loopOrd[h])
+		if a.inlined {
+			lp0 = a.fn.Name() + "." + lp0
+		}
+		name := fmt.Sprintf("%s/%s %s.auto-%s", a.prefix, kind, lp0, ai[0])
 		a.vc.oblige(name, kind, a.props, a.pos(h.Instrs[0].Pos()), st.guard, ai[1], "engine-supplied invariant: "+ai[0])
 	}
 	for i, c := range a.loopInvs(h) {
 		env := a.specEnv(st)
 		env.loop = h
 		v, err := env.evalBool(c.Expr)
-		name := fmt.Sprintf("%s/%s loop#%d.%d", a.prefix, kind, a.loopOrd[h], i+1)
+		lp := fmt.Sprintf("loop#%d", a.loopOrd[h])
+		if a.inlined {
+			lp = a.fn.Name() + "." + lp
+		}
+		name := fmt.Sprintf("%s/%s %s.%d", a.prefix, kind, lp, i+1)
 		if c.Label != "" {
-			name = fmt.Sprintf("%s/%s loop#%d.%s", a.prefix, kind, a.loopOrd[h], c.Label)
+			name = fmt.Sprintf("%s/%s %s.%s", a.prefix, kind, lp, c.Label)
 		}
 		if err != nil {
 			a.vc.oblige(name, kind, a.props, c.Line, st.guard, "false", "contract error: "+err.Error()+" in: "+c.Text)
